@@ -208,6 +208,11 @@ def mutex_table(ck, mod):
             for c in ast.walk(v):
                 if isinstance(c, ast.Call) and A.call_attr(c) in ("RLock", "Lock"):
                     kind = A.call_attr(c)
+    if table_lock is None:
+        # the function no longer mentions a lock: the table lock is the module's only lock object
+        locks = [name for name, v in mod.assigns.items() if isinstance(v, ast.Call) and A.call_attr(v) in ("RLock", "Lock")]
+        if len(locks) == 1:
+            table_lock = locks[0]
     if kind is None:
         for c in A.body_calls(mi.node):
             if A.call_attr(c) in ("RLock", "Lock"):
